@@ -8,6 +8,67 @@
 // ======================================================================================
 //@ source lib/graph/mod.rs
 
+// ---- natural loops: the REAL struct Loop and its methods ---------------------------------------
+//@ item struct Loop
+
+// derive(Clone) re-supplied explicitly (structural copy; the node set is cloned element-wise)
+impl Clone for Loop {
+    fn clone(&self) -> (r: Loop)
+        ensures r.header == self.header, r.nodes@ == self.nodes@,
+    {
+        Loop { header: self.header, nodes: self.nodes.clone() }
+    }
+}
+
+impl Loop {
+//@ fn impl Loop :: fn new
+//@ spec
+    ensures /*@fields*/ r.header == header && r.nodes == nodes,
+//@ end
+
+//@ fn impl Loop :: fn nodes
+//@ spec
+    ensures /*@field*/ *r == self.nodes,
+//@ end
+
+//@ fn impl Loop :: fn header
+//@ spec
+    ensures /*@field*/ r == self.header,
+//@ end
+
+//@ fn impl Loop :: fn tail
+//@ spec
+    ensures /*@set*/ r@ == self.nodes@.remove(self.header),
+//@ end
+
+//@ fn impl Loop :: fn is_nesting
+//@ spec
+    ensures /*@iff*/ r == (self.header != other.header && self.nodes@.contains(other.header)),
+//@ end
+
+//@ fn impl Loop :: fn is_disjoint
+//@ spec
+    ensures /*@iff*/ r == (self.header != other.header && !self.nodes@.contains(other.header) && !other.nodes@.contains(self.header)),
+//@ end
+}
+
+impl Vertex for Loop {
+    open spec fn index_spec(&self) -> usize { self.header }
+    proof fn lemma_clone_index(a: &Self, b: &Self) {}
+//@ fn impl Vertex for Loop :: fn index nopub
+//@ end
+//@ fn impl Vertex for Loop :: fn dot_label nopub
+//@ rewrite 1 `format!("{}", self)` => `self.to_string()` ## R-format-display: `format!("{}", x)` and `x.to_string()` are both defined as formatting x with its Display impl into a new String
+//@ end
+}
+
+impl fmt::Display for Loop {
+//@ fn impl fmt::Display for Loop :: fn fmt nopub
+//@ end
+}
+
+//@ item type LoopTree
+
 /// dn numbers exactly the elements of o by their position
 pub open spec fn dfn_ok(o: Seq<usize>, dn: Map<usize, usize>) -> bool {
     &&& forall|v: usize| #![trigger dn.contains_key(v)] dn.contains_key(v) <==> o.contains(v)
@@ -39,6 +100,65 @@ pub open spec fn idoms_shape(es: Set<(usize, usize)>, root: usize, m: Map<usize,
 
 pub open spec fn has_idoms_shape(es: Set<(usize, usize)>, root: usize, m: Map<usize, usize>) -> bool {
     exists|o: Seq<usize>| #[trigger] idoms_shape(es, root, m, o)
+}
+
+/// t is the tree whose edges are exactly (m[v], v) over the vertex set vs
+pub open spec fn domtree_of(t: &Graph<NullVertex, NullEdge>, vs: Set<usize>, m: Map<usize, usize>) -> bool {
+    &&& t.graph_wf()
+    &&& t.vertices@.dom() == vs
+    &&& forall|e: (usize, usize)| #![trigger t.edges@.contains_key(e)] t.edges@.contains_key(e) <==> (m.contains_key(e.1) && m[e.1] == e.0)
+}
+
+/// structural shape of a dominator tree for (vs, es, root)
+pub open spec fn has_domtree_shape(t: &Graph<NullVertex, NullEdge>, vs: Set<usize>, es: Set<(usize, usize)>, root: usize) -> bool {
+    exists|m: Map<usize, usize>, o: Seq<usize>| #![trigger idoms_shape(es, root, m, o)] idoms_shape(es, root, m, o) && domtree_of(t, vs, m)
+}
+
+/// in such a tree every vertex reachable from root (in es) is reachable from root in the tree
+pub proof fn lemma_domtree_reach(t: &Graph<NullVertex, NullEdge>, vs: Set<usize>, es: Set<(usize, usize)>, root: usize, m: Map<usize, usize>, o: Seq<usize>, v: usize)
+    requires idoms_shape(es, root, m, o), domtree_of(t, vs, m), path(es, root, v),
+    ensures path(t.edges@.dom(), root, v),
+    decreases pos_of(o, v),
+{
+    let te = t.edges@.dom();
+    if v == root {
+        lemma_path_refl(te, root);
+    } else {
+        assert(m.contains_key(v));
+        assert(o.contains(v));
+        assert(o.contains(m[v]));
+        assert(0 <= pos_of(o, m[v]));
+        lemma_domtree_reach(t, vs, es, root, m, o, m[v]);
+        assert(t.edges@.contains_key((m[v], v)));
+        lemma_path_step(te, root, m[v], v);
+    }
+}
+
+/// and conversely
+pub proof fn lemma_domtree_reach_rev(t: &Graph<NullVertex, NullEdge>, vs: Set<usize>, es: Set<(usize, usize)>, root: usize, m: Map<usize, usize>, o: Seq<usize>, v: usize)
+    requires idoms_shape(es, root, m, o), domtree_of(t, vs, m), path(t.edges@.dom(), root, v),
+    ensures path(es, root, v),
+{
+    let te = t.edges@.dom();
+    let f = |x: usize| path(es, root, x);
+    lemma_path_refl(es, root);
+    assert forall|a: usize, b: usize| #![trigger te.contains((a, b))] f(a) && te.contains((a, b)) implies f(b) by {
+        assert(t.edges@.contains_key((a, b)));
+        assert(m.contains_key(b));
+    }
+    lemma_path_closed(te, f, root, v);
+}
+
+/// every recorded loop contains its header and only mentions vertices
+pub open spec fn loops_ok(vs: Set<usize>, lm: Map<usize, BTreeSet<usize>>) -> bool {
+    forall|h: usize| #![trigger lm[h]] lm.contains_key(h) ==> lm[h]@.contains(h) && lm[h]@.subset_of(vs)
+}
+
+/// structural shape of a list of natural loops: headers pairwise distinct, each loop contains its
+/// header and only mentions vertices of the graph
+pub open spec fn loops_shape(vs: Set<usize>, ls: Seq<Loop>) -> bool {
+    &&& forall|i: int| 0 <= i < ls.len() ==> (#[trigger] ls[i]).nodes@.contains(ls[i].header) && ls[i].nodes@.subset_of(vs)
+    &&& forall|i: int, j: int| 0 <= i < j < ls.len() ==> (#[trigger] ls[i]).header != (#[trigger] ls[j]).header
 }
 
 pub proof fn lemma_pos_of(o: Seq<usize>, i: int)
@@ -129,25 +249,18 @@ where
     invariant
         self.graph_wf(),
         seq_lists_set_ref(it.seq(), self.vertices@.dom()),
-        ancestor@.dom() == label@.dom(),
+        forall|k: usize| #![trigger ancestor@.contains_key(k)] #![trigger label@.contains_key(k)] ancestor@.contains_key(k) <==> label@.contains_key(k),
         forall|k: usize| #![trigger ancestor@.contains_key(k)] ancestor@.contains_key(k) ==> self.vertices@.contains_key(k) && ancestor@[k] is None,
         forall|j: int| 0 <= j < it.index@ ==> ancestor@.contains_key(*#[trigger] it.seq()[j]),
-        forall|k: usize| #![trigger self.vertices@.contains_key(k)] it.index@ == it.seq().len() && self.vertices@.contains_key(k) ==> ancestor@.contains_key(k),
 //@ before 0 `ancestor.insert(vertex, None);`
-    let ghost anc0 = ancestor@;
     proof { lemma_seq_lists_set_ref(it.seq(), self.vertices@.dom()); }
-//@ after 0 `label.insert(vertex, dfs_number.get(&vertex).cloned().unwrap_or(usize::MAX));`
-    proof {
-        assert(ancestor@.dom() =~= label@.dom());
-        assert forall|k: usize| #![trigger self.vertices@.contains_key(k)] it.index@ + 1 == it.seq().len() && self.vertices@.contains_key(k) implies ancestor@.contains_key(k) by {
-            assert(self.vertices@.dom().contains(k));
-            let j = choose|j: int| 0 <= j < it.seq().len() && *#[trigger] it.seq()[j] == k;
-            if j < it.index@ { assert(anc0.contains_key(*it.seq()[j])); }
-        }
-    }
 //@ before 0 `let mut semi: FxHashMap<usize, usize>`
     proof {
+        assert forall|k: usize| self.vertices@.contains_key(k) implies #[trigger] ancestor@.contains_key(k) by {
+            assert(self.vertices@.dom().contains(k));
+        }
         assert(ancestor@.dom() =~= self.vertices@.dom());
+        assert(label@.dom() =~= self.vertices@.dom());
         assert(anc_ok(ancestor@, rank));
     }
 //@ loop 2
@@ -313,6 +426,715 @@ where
         }
         assert(idoms_shape(self.edges@.dom(), root, graph_idoms@, o));
         assert(has_idoms_shape(self.edges@.dom(), root, graph_idoms@));
+    }
+//@ end
+
+
+//@ fn impl<V, E> Graph<V, E> :: fn compute_dominator_tree loops=2
+//@ rewrite 1 `let mut graph = Graph::new();` => `let mut graph: Graph<NullVertex, NullEdge> = Graph::new();` ## R-type-annotation: spells out the inferred type of the local
+//@ rewrite 1 `for vertex in &self.vertices {` => `for vertex in it: &self.vertices {` ## R-ghost-iter-name: names the ghost iterator of the for loop; no executable change
+//@ rewrite 1 `for (vertex, idom) in idoms {` => `for kv__ in it: idoms.iter() { let (vertex, idom) = (*kv__.0, *kv__.1);` ## R-iter-copy: by-value iteration over a HashMap of Copy pairs that is not used afterwards = by-reference iteration copying each entry (Verus has no model of hash_map::IntoIter)
+//@ spec
+    requires self.graph_wf(),
+    ensures
+        /*@missing*/ !self.vertices@.contains_key(start_index) ==> (r matches Err(e) && e == Error::GraphVertexNotFound(start_index)),
+        /*@ok*/ self.vertices@.contains_key(start_index) ==> r is Ok,
+        /*@shape*/ r matches Ok(t) ==> has_domtree_shape(&t, self.vertices@.dom(), self.edges@.dom(), start_index),
+//@ loop 0
+    invariant
+        self.graph_wf(),
+        seq_lists_map(it.seq(), self.vertices@),
+        graph.graph_wf(), graph.edges@.dom() =~= Set::<(usize, usize)>::empty(),
+        forall|k: usize| #![trigger graph.vertices@.contains_key(k)] graph.vertices@.contains_key(k) ==> self.vertices@.contains_key(k),
+        forall|k: usize| #![trigger graph.vertices@.contains_key(k)] graph.vertices@.contains_key(k) ==> exists|j: int| 0 <= j < it.index@ && *(#[trigger] it.seq()[j]).0 == k,
+        forall|j: int| 0 <= j < it.index@ ==> graph.vertices@.contains_key(*(#[trigger] it.seq()[j]).0),
+        forall|k: usize| #![trigger self.vertices@.contains_key(k)] it.index@ == it.seq().len() && self.vertices@.contains_key(k) ==> graph.vertices@.contains_key(k),
+//@ before 0 `graph.insert_vertex(NullVertex::new(*vertex.0))?;`
+    let ghost gv0 = graph.vertices@.dom();
+    proof {
+        lemma_seq_lists_map(it.seq(), self.vertices@);
+        assert(self.vertices@.contains_pair(*vertex.0, *vertex.1));
+        if graph.vertices@.contains_key(*vertex.0) {
+            let j = choose|j: int| 0 <= j < it.index@ && *(#[trigger] it.seq()[j]).0 == *vertex.0;
+            assert(*it.seq()[j].0 != *it.seq()[it.index@].0);
+        }
+    }
+//@ after 0 `graph.insert_vertex(NullVertex::new(*vertex.0))?;`
+    proof {
+        assert forall|k: usize| #![trigger graph.vertices@.contains_key(k)] graph.vertices@.contains_key(k) implies exists|j: int| 0 <= j < it.index@ + 1 && *(#[trigger] it.seq()[j]).0 == k by {
+            if k != *vertex.0 {
+                assert(gv0.contains(k));
+                let j = choose|j: int| 0 <= j < it.index@ && *(#[trigger] it.seq()[j]).0 == k;
+            }
+        }
+        assert forall|k: usize| #![trigger self.vertices@.contains_key(k)] it.index@ + 1 == it.seq().len() && self.vertices@.contains_key(k) implies graph.vertices@.contains_key(k) by {
+            let j = choose|j: int| 0 <= j < it.seq().len() && *(#[trigger] it.seq()[j]).0 == k;
+            if j < it.index@ { assert(gv0.contains(*it.seq()[j].0)); }
+        }
+    }
+//@ before 0 `for kv__ in it: idoms.iter()`
+    let ghost m = idoms@;
+    let ghost o = choose|o: Seq<usize>| #[trigger] idoms_shape(self.edges@.dom(), start_index, idoms@, o);
+    proof {
+        assert(graph.vertices@.dom() =~= self.vertices@.dom());
+        assert(has_idoms_shape(self.edges@.dom(), start_index, idoms@));
+        assert(idoms_shape(self.edges@.dom(), start_index, m, o));
+        if m.dom().len() == 0 { assert(forall|k: usize| !m.dom().contains(k)); }
+        assert(m.len() == m.dom().len());
+    }
+//@ loop 1
+    invariant
+        self.graph_wf(), self.vertices@.contains_key(start_index), m == idoms@,
+        idoms_shape(self.edges@.dom(), start_index, m, o),
+        seq_lists_map(it.seq(), m),
+        graph.graph_wf(), graph.vertices@.dom() == self.vertices@.dom(),
+        forall|e: (usize, usize)| #![trigger graph.edges@.contains_key(e)] graph.edges@.contains_key(e) ==> m.contains_key(e.1) && m[e.1] == e.0
+            && exists|j: int| 0 <= j < it.index@ && *(#[trigger] it.seq()[j]).0 == e.1,
+        forall|j: int| 0 <= j < it.index@ ==> graph.edges@.contains_key((m[*(#[trigger] it.seq()[j]).0], *it.seq()[j].0)),
+        forall|e: (usize, usize)| #![trigger graph.edges@.contains_key(e)] it.index@ == it.seq().len() && m.contains_key(e.1) && m[e.1] == e.0 ==> graph.edges@.contains_key(e),
+//@ before 0 `graph.insert_edge(NullEdge::new(idom, vertex))?;`
+    let ghost ge0 = graph.edges@.dom();
+    proof {
+        lemma_seq_lists_map(it.seq(), m);
+        assert(m.contains_pair(*kv__.0, *kv__.1));
+        self.lemma_reach_is_vertex(start_index, vertex);
+        self.lemma_reach_is_vertex(start_index, idom);
+        if graph.edges@.contains_key((idom, vertex)) {
+            let j = choose|j: int| 0 <= j < it.index@ && *(#[trigger] it.seq()[j]).0 == vertex;
+            assert(*it.seq()[j].0 != *it.seq()[it.index@].0);
+        }
+    }
+//@ after 0 `graph.insert_edge(NullEdge::new(idom, vertex))?;`
+    proof {
+        assert(graph.edges@.dom() =~= ge0.insert((idom, vertex)));
+        assert forall|e: (usize, usize)| #![trigger graph.edges@.contains_key(e)] graph.edges@.contains_key(e) implies m.contains_key(e.1) && m[e.1] == e.0
+            && exists|j: int| 0 <= j < it.index@ + 1 && *(#[trigger] it.seq()[j]).0 == e.1 by {
+            if e != (idom, vertex) {
+                assert(ge0.contains(e));
+                let j = choose|j: int| 0 <= j < it.index@ && *(#[trigger] it.seq()[j]).0 == e.1;
+            } else {
+                assert(*it.seq()[it.index@].0 == e.1);
+            }
+        }
+        assert forall|j: int| 0 <= j < it.index@ + 1 implies graph.edges@.contains_key((m[*(#[trigger] it.seq()[j]).0], *it.seq()[j].0)) by {
+            if j < it.index@ { assert(ge0.contains((m[*it.seq()[j].0], *it.seq()[j].0))); }
+        }
+        assert forall|e: (usize, usize)| #![trigger graph.edges@.contains_key(e)] it.index@ + 1 == it.seq().len() && m.contains_key(e.1) && m[e.1] == e.0 implies graph.edges@.contains_key(e) by {
+            let j = choose|j: int| 0 <= j < it.seq().len() && *(#[trigger] it.seq()[j]).0 == e.1;
+            assert(e == (m[*it.seq()[j].0], *it.seq()[j].0));
+        }
+    }
+//@ before 0 `Ok(graph)`
+    proof {
+        assert(domtree_of(&graph, self.vertices@.dom(), m));
+        assert(has_domtree_shape(&graph, self.vertices@.dom(), self.edges@.dom(), start_index));
+    }
+//@ end
+
+
+//@ fn impl<V, E> Graph<V, E> :: fn compute_dominators loops=3
+//@ rewrite 1 `for vertex in dom_tree_pre_oder {` => `for vertex in it: dom_tree_pre_oder {` ## R-ghost-iter-name: names the ghost iterator of the for loop; no executable change
+//@ rewrite 1 `let mut doms = FxHashSet::default();` => `let mut doms: FxHashSet<usize> = FxHashSet::default();` ## R-type-annotation: spells out the inferred type of the local
+//@ rewrite 1 `for pred in &dom_tree` => `for pred in it2: &dom_tree` ## R-ghost-iter-name: names the ghost iterator of the for loop; no executable change
+//@ rewrite 1 `doms.extend(&dominators[pred])` => `for x__ in it3: dominators[pred].iter() { doms.insert(*x__); }` ## R-extend: `set.extend(&other)` (Extend<&T> for HashSet<T>, T: Copy) is by definition inserting a copy of every element of `other`
+//@ spec
+    requires self.graph_wf(),
+    ensures
+        /*@missing*/ !self.vertices@.contains_key(start_index) ==> (r matches Err(e) && e == Error::GraphVertexNotFound(start_index)),
+        /*@ok*/ self.vertices@.contains_key(start_index) ==> r is Ok,
+        /*@keys*/ r matches Ok(d) ==> forall|v: usize| #![trigger d@.contains_key(v)] d@.contains_key(v) <==> self.reaches(start_index, v),
+        /*@self*/ r matches Ok(d) ==> forall|v: usize| #![trigger d@[v]] d@.contains_key(v) ==> d@[v]@.contains(v),
+        /*@members*/ r matches Ok(d) ==> forall|v: usize, x: usize| #![trigger d@[v]@.contains(x)] d@.contains_key(v) && d@[v]@.contains(x) ==> self.reaches(start_index, x),
+//@ before 0 `let dom_tree_pre_oder =`
+    let ghost es = self.edges@.dom();
+    let ghost te = dom_tree.edges@.dom();
+    let ghost (m, o) = choose|m: Map<usize, usize>, o: Seq<usize>| #![trigger idoms_shape(es, start_index, m, o)] idoms_shape(es, start_index, m, o) && domtree_of(&dom_tree, self.vertices@.dom(), m);
+    proof {
+        assert(has_domtree_shape(&dom_tree, self.vertices@.dom(), es, start_index));
+        assert(idoms_shape(es, start_index, m, o) && domtree_of(&dom_tree, self.vertices@.dom(), m));
+    }
+//@ before 0 `let mut dominators:`
+    let ghost po = dom_tree_pre_oder@;
+    proof {
+        assert forall|v: usize| #![trigger po.contains(v)] po.contains(v) <==> path(es, start_index, v) by {
+            if po.contains(v) { lemma_domtree_reach_rev(&dom_tree, self.vertices@.dom(), es, start_index, m, o, v); }
+            if path(es, start_index, v) { lemma_domtree_reach(&dom_tree, self.vertices@.dom(), es, start_index, m, o, v); }
+        }
+    }
+//@ loop 0
+    invariant
+        self.graph_wf(), self.vertices@.contains_key(start_index), es == self.edges@.dom(), te == dom_tree.edges@.dom(),
+        idoms_shape(es, start_index, m, o), domtree_of(&dom_tree, self.vertices@.dom(), m),
+        it.seq() == po, po.no_duplicates(), po.len() > 0, po[0] == start_index,
+        forall|v: usize| #![trigger po.contains(v)] po.contains(v) <==> path(es, start_index, v),
+        forall|i: int| 1 <= i < po.len() ==> has_earlier_pred(te, po, i, #[trigger] po[i]),
+        forall|v: usize| #![trigger dominators@.contains_key(v)] dominators@.contains_key(v) <==> index_before(po, v, it.index@),
+        forall|v: usize| #![trigger dominators@[v]] dominators@.contains_key(v) ==> dominators@[v]@.contains(v),
+        forall|v: usize, x: usize| #![trigger dominators@[v]@.contains(x)] dominators@.contains_key(v) && dominators@[v]@.contains(x) ==> path(es, start_index, x),
+//@ before 0 `for pred in it2: &dom_tree`
+    let ghost i_v = it.index@;
+    proof {
+        assert(vertex == po[i_v]);
+        assert(po.contains(po[i_v]));
+        self.lemma_reach_is_vertex(start_index, vertex);
+        // every tree predecessor of vertex already has its dominator set
+        assert forall|p: usize| dom_tree.predecessors@[vertex]@.contains(p) implies #[trigger] dominators@.contains_key(p) by {
+            assert(dom_tree.edges@.contains_key((p, vertex)));
+            assert(m.contains_key(vertex) && m[vertex] == p);
+            assert(po[i_v] != po[0]);
+            assert(has_earlier_pred(te, po, i_v, po[i_v]));
+            let j = choose|j: int| 0 <= j < i_v && j < po.len() && te.contains((#[trigger] po[j], po[i_v]));
+            assert(dom_tree.edges@.contains_key((po[j], vertex)));
+            assert(po[j] == p);
+            assert(index_before(po, p, i_v));
+        }
+    }
+//@ loop 1
+    invariant
+        dom_tree.predecessors@.contains_key(vertex),
+        seq_lists_set_ref(it2.seq(), dom_tree.predecessors@[vertex]@),
+        forall|p: usize| dom_tree.predecessors@[vertex]@.contains(p) ==> #[trigger] dominators@.contains_key(p),
+        forall|v: usize, x: usize| #![trigger dominators@[v]@.contains(x)] dominators@.contains_key(v) && dominators@[v]@.contains(x) ==> path(es, start_index, x),
+        doms@.contains(vertex),
+        forall|x: usize| #![trigger doms@.contains(x)] doms@.contains(x) ==> path(es, start_index, x),
+//@ before 0 `for x__ in it3: dominators[pred].iter()`
+    proof {
+        lemma_seq_lists_set_ref(it2.seq(), dom_tree.predecessors@[vertex]@);
+        assert(dom_tree.predecessors@[vertex]@.contains(*pred));
+    }
+//@ loop 2
+    invariant
+        dominators@.contains_key(*pred),
+        seq_lists_set_ref(it3.seq(), dominators@[*pred]@),
+        forall|v: usize, x: usize| #![trigger dominators@[v]@.contains(x)] dominators@.contains_key(v) && dominators@[v]@.contains(x) ==> path(es, start_index, x),
+        doms@.contains(vertex),
+        forall|x: usize| #![trigger doms@.contains(x)] doms@.contains(x) ==> path(es, start_index, x),
+//@ before 0 `doms.insert(*x__);`
+    proof {
+        lemma_seq_lists_set_ref(it3.seq(), dominators@[*pred]@);
+        assert(dominators@[*pred]@.contains(*x__));
+    }
+//@ before 0 `dominators.insert(vertex, doms);`
+    let ghost d0 = dominators@;
+//@ after 0 `dominators.insert(vertex, doms);`
+    proof {
+        assert forall|v: usize| #![trigger dominators@.contains_key(v)] dominators@.contains_key(v) <==> index_before(po, v, i_v + 1) by {
+            if dominators@.contains_key(v) {
+                if v == vertex { assert(po[i_v] == v); }
+                else {
+                    assert(d0.contains_key(v));
+                    let j = choose|j: int| 0 <= j < i_v && j < po.len() && #[trigger] po[j] == v;
+                    assert(po[j] == v);
+                }
+            }
+            if index_before(po, v, i_v + 1) {
+                let j = choose|j: int| 0 <= j < i_v + 1 && j < po.len() && #[trigger] po[j] == v;
+                if j < i_v { assert(index_before(po, v, i_v)); }
+            }
+        }
+        assert forall|v: usize, x: usize| #![trigger dominators@[v]@.contains(x)] dominators@.contains_key(v) && dominators@[v]@.contains(x) implies path(es, start_index, x) by {
+            if v != vertex { assert(d0[v]@.contains(x)); }
+        }
+        assert forall|v: usize| #![trigger dominators@[v]] dominators@.contains_key(v) implies dominators@[v]@.contains(v) by {
+            if v != vertex { assert(d0.contains_key(v)); }
+        }
+    }
+//@ before 0 `Ok(dominators)`
+    proof {
+        assert forall|v: usize| #![trigger dominators@.contains_key(v)] dominators@.contains_key(v) <==> self.reaches(start_index, v) by {
+            if dominators@.contains_key(v) {
+                let j = choose|j: int| 0 <= j < po.len() && j < po.len() && #[trigger] po[j] == v;
+                assert(po.contains(po[j]));
+            }
+            if self.reaches(start_index, v) {
+                assert(po.contains(v));
+                let j = choose|j: int| 0 <= j < po.len() && po[j] == v;
+                assert(index_before(po, v, po.len() as int));
+            }
+        }
+    }
+//@ end
+
+
+//@ fn impl<V, E> Graph<V, E> :: fn compute_back_edges loops=2
+//@ rewrite 1 `for (node, dominators) in self.compute_dominators(head)? {` => `let doms__ = self.compute_dominators(head)?; for kv__ in it: doms__.iter() { let (node, dominators) = (*kv__.0, kv__.1);` ## R-iter-copy: by-value iteration over a temporary HashMap whose values are only read = binding it to a local and iterating by reference (Verus has no model of hash_map::IntoIter); the key is copied, the value set is used through `contains` only
+//@ rewrite 1 `for successor in &self` => `for successor in it2: &self` ## R-ghost-iter-name: names the ghost iterator of the for loop; no executable change
+//@ spec
+    requires self.graph_wf(),
+    ensures
+        /*@missing*/ !self.vertices@.contains_key(head) ==> (r matches Err(e) && e == Error::GraphVertexNotFound(head)),
+        /*@ok*/ self.vertices@.contains_key(head) ==> r is Ok,
+        /*@edges*/ r matches Ok(b) ==> forall|e: (usize, usize)| #![trigger b@.contains(e)] b@.contains(e) ==> self.edges@.contains_key(e) && self.reaches(head, e.0) && self.reaches(head, e.1),
+//@ loop 0
+    invariant
+        self.graph_wf(), self.vertices@.contains_key(head),
+        seq_lists_map(it.seq(), doms__@),
+        forall|v: usize| #![trigger doms__@.contains_key(v)] doms__@.contains_key(v) <==> self.reaches(head, v),
+        forall|v: usize, x: usize| #![trigger doms__@[v]@.contains(x)] doms__@.contains_key(v) && doms__@[v]@.contains(x) ==> self.reaches(head, x),
+        forall|e: (usize, usize)| #![trigger back_edges@.contains(e)] back_edges@.contains(e) ==> self.edges@.contains_key(e) && self.reaches(head, e.0) && self.reaches(head, e.1),
+//@ before 0 `for successor in it2: &self`
+    proof {
+        lemma_seq_lists_map(it.seq(), doms__@);
+        assert(doms__@.contains_pair(*kv__.0, *kv__.1));
+        self.lemma_reach_is_vertex(head, node);
+    }
+//@ loop 1
+    invariant
+        self.graph_wf(), self.vertices@.contains_key(node), self.reaches(head, node),
+        doms__@.contains_key(node), *dominators == doms__@[node],
+        seq_lists_set_ref(it2.seq(), self.successors@[node]@),
+        forall|v: usize, x: usize| #![trigger doms__@[v]@.contains(x)] doms__@.contains_key(v) && doms__@[v]@.contains(x) ==> self.reaches(head, x),
+        forall|e: (usize, usize)| #![trigger back_edges@.contains(e)] back_edges@.contains(e) ==> self.edges@.contains_key(e) && self.reaches(head, e.0) && self.reaches(head, e.1),
+//@ before 0 `if dominators.contains(successor)`
+    proof {
+        lemma_seq_lists_set_ref(it2.seq(), self.successors@[node]@);
+        assert(self.successors@[node]@.contains(*successor));
+        assert(self.edges@.contains_key((node, *successor)));
+    }
+//@ end
+
+//@ fn impl<V, E> Graph<V, E> :: fn is_reducible loops=2
+//@ rewrite 1 `let mut fe_graph = Graph::new();` => `let mut fe_graph: Graph<NullVertex, NullEdge> = Graph::new();` ## R-type-annotation: spells out the inferred type of the local
+//@ rewrite 1 `for index in self.vertices.keys() {` => `for index in it: self.vertices.keys() {` ## R-ghost-iter-name: names the ghost iterator of the for loop; no executable change
+//@ rewrite 1 `for edge in self.edges.keys() {` => `for edge in it: self.edges.keys() {` ## R-ghost-iter-name: names the ghost iterator of the for loop; no executable change
+//@ spec
+    requires self.graph_wf(),
+    ensures
+        /*@missing*/ !self.vertices@.contains_key(head) ==> (r matches Err(e) && e == Error::GraphVertexNotFound(head)),
+        /*@ok*/ self.vertices@.contains_key(head) ==> r is Ok,
+//@ loop 0
+    invariant
+        self.graph_wf(),
+        seq_lists_set_ref(it.seq(), self.vertices@.dom()),
+        fe_graph.graph_wf(), fe_graph.edges@.dom() =~= Set::<(usize, usize)>::empty(),
+        forall|k: usize| #![trigger fe_graph.vertices@.contains_key(k)] fe_graph.vertices@.contains_key(k) ==> self.vertices@.contains_key(k),
+        forall|k: usize| #![trigger fe_graph.vertices@.contains_key(k)] fe_graph.vertices@.contains_key(k) ==> exists|j: int| 0 <= j < it.index@ && *#[trigger] it.seq()[j] == k,
+        forall|j: int| 0 <= j < it.index@ ==> fe_graph.vertices@.contains_key(*#[trigger] it.seq()[j]),
+        forall|k: usize| #![trigger self.vertices@.contains_key(k)] it.index@ == it.seq().len() && self.vertices@.contains_key(k) ==> fe_graph.vertices@.contains_key(k),
+//@ before 0 `fe_graph.insert_vertex(NullVertex::new(*index))?;`
+    let ghost gv0 = fe_graph.vertices@.dom();
+    proof {
+        lemma_seq_lists_set_ref(it.seq(), self.vertices@.dom());
+        if fe_graph.vertices@.contains_key(*index) {
+            let j = choose|j: int| 0 <= j < it.index@ && *#[trigger] it.seq()[j] == *index;
+            assert(it.seq()[j] != it.seq()[it.index@]);
+        }
+    }
+//@ after 0 `fe_graph.insert_vertex(NullVertex::new(*index))?;`
+    proof {
+        assert forall|k: usize| #![trigger fe_graph.vertices@.contains_key(k)] fe_graph.vertices@.contains_key(k) implies exists|j: int| 0 <= j < it.index@ + 1 && *#[trigger] it.seq()[j] == k by {
+            if k != *index {
+                assert(gv0.contains(k));
+                let j = choose|j: int| 0 <= j < it.index@ && *#[trigger] it.seq()[j] == k;
+            }
+        }
+        assert forall|k: usize| #![trigger self.vertices@.contains_key(k)] it.index@ + 1 == it.seq().len() && self.vertices@.contains_key(k) implies fe_graph.vertices@.contains_key(k) by {
+            assert(self.vertices@.dom().contains(k));
+            let j = choose|j: int| 0 <= j < it.seq().len() && *#[trigger] it.seq()[j] == k;
+            if j < it.index@ { assert(gv0.contains(*it.seq()[j])); }
+        }
+    }
+//@ before 0 `for edge in it: self.edges.keys()`
+    proof {
+        assert(fe_graph.vertices@.dom() =~= self.vertices@.dom());
+    }
+//@ loop 1
+    invariant
+        self.graph_wf(), self.vertices@.contains_key(head),
+        seq_lists_set_ref(it.seq(), self.edges@.dom()),
+        fe_graph.graph_wf(), fe_graph.vertices@.dom() == self.vertices@.dom(),
+        forall|e: (usize, usize)| #![trigger fe_graph.edges@.contains_key(e)] fe_graph.edges@.contains_key(e) ==> exists|j: int| 0 <= j < it.index@ && *#[trigger] it.seq()[j] == e,
+//@ before 0 `if !back_edges.contains(edge)`
+    let ghost ge0 = fe_graph.edges@.dom();
+    proof {
+        lemma_seq_lists_set_ref(it.seq(), self.edges@.dom());
+        assert(self.edges@.dom().contains(*edge));
+        assert(*edge == (edge.0, edge.1));
+        assert(self.edges@.contains_key((edge.0, edge.1)));
+        if fe_graph.edges@.contains_key(*edge) {
+            let j = choose|j: int| 0 <= j < it.index@ && *#[trigger] it.seq()[j] == *edge;
+            assert(it.seq()[j] != it.seq()[it.index@]);
+        }
+    }
+//@ after 0 `if !back_edges.contains(edge) { fe_graph.insert_edge(NullEdge::new(edge.0, edge.1))?; }`
+    proof {
+        assert forall|e: (usize, usize)| #![trigger fe_graph.edges@.contains_key(e)] fe_graph.edges@.contains_key(e) implies exists|j: int| 0 <= j < it.index@ + 1 && *#[trigger] it.seq()[j] == e by {
+            if ge0.contains(e) {
+                let j = choose|j: int| 0 <= j < it.index@ && *#[trigger] it.seq()[j] == e;
+            } else {
+                assert(e == *edge);
+                assert(*it.seq()[it.index@] == e);
+            }
+        }
+    }
+//@ end
+
+
+//@ fn impl<V, E> Graph<V, E> :: fn compute_dominance_frontiers loops=6
+//@ rewrite 2 `for vertex in &self.vertices {` => `for vertex in it: &self.vertices {` ## R-ghost-iter-name: names the ghost iterator of the for loop; no executable change
+//@ rewrite 1 `for predecessor in &self.predecessors[&vertex_index] {` => `for predecessor in it2: &self.predecessors[&vertex_index] {` ## R-ghost-iter-name: names the ghost iterator of the for loop; no executable change
+//@ rewrite 1 `for predecessor in &self.predecessors[&start_index] {` => `for predecessor in it2: &self.predecessors[&start_index] {` ## R-ghost-iter-name: names the ghost iterator of the for loop; no executable change
+//@ rewrite 1 `{ continue; }` => `{ } else {` ## R-continue: `if C { continue; } REST` at the end of a loop body is `if C { } else { REST }` (part 1 of 2; Verus for-loops have no `continue`)
+//@ rewrite 1 `runner = idoms[&runner]; } } }` => `runner = idoms[&runner]; } } } }` ## R-continue: part 2 of 2, closes the else block (REST ends with the `for predecessor` loop)
+//@ spec
+    requires self.graph_wf(),
+    ensures
+        /*@missing*/ !self.vertices@.contains_key(start_index) ==> (r matches Err(e) && e == Error::GraphVertexNotFound(start_index)),
+        /*@ok*/ self.vertices@.contains_key(start_index) ==> r is Ok,
+        /*@keys*/ r matches Ok(d) ==> d@.dom() == self.vertices@.dom(),
+        /*@members*/ r matches Ok(d) ==> forall|v: usize, x: usize| #![trigger d@[v]@.contains(x)] d@.contains_key(v) && d@[v]@.contains(x) ==> self.vertices@.contains_key(x),
+//@ loop 0
+    invariant
+        self.graph_wf(),
+        seq_lists_map(it.seq(), self.vertices@),
+        forall|k: usize| #![trigger df@.contains_key(k)] df@.contains_key(k) ==> self.vertices@.contains_key(k) && df@[k]@ =~= Set::<usize>::empty(),
+        forall|j: int| 0 <= j < it.index@ ==> df@.contains_key(*(#[trigger] it.seq()[j]).0),
+        forall|k: usize| #![trigger self.vertices@.contains_key(k)] it.index@ == it.seq().len() && self.vertices@.contains_key(k) ==> df@.contains_key(k),
+//@ before 0 `df.insert(*vertex.0, FxHashSet::default());`
+    let ghost df0 = df@;
+    proof {
+        lemma_seq_lists_map(it.seq(), self.vertices@);
+        assert(self.vertices@.contains_pair(*vertex.0, *vertex.1));
+    }
+//@ after 0 `df.insert(*vertex.0, FxHashSet::default());`
+    proof {
+        assert forall|k: usize| #![trigger self.vertices@.contains_key(k)] it.index@ + 1 == it.seq().len() && self.vertices@.contains_key(k) implies df@.contains_key(k) by {
+            let j = choose|j: int| 0 <= j < it.seq().len() && *(#[trigger] it.seq()[j]).0 == k;
+            if j < it.index@ { assert(df0.contains_key(*it.seq()[j].0)); }
+        }
+    }
+//@ after 0 `let idoms = self.compute_immediate_dominators(start_index)?;`
+    let ghost es = self.edges@.dom();
+    let ghost m = idoms@;
+    let ghost o = choose|o: Seq<usize>| #[trigger] idoms_shape(es, start_index, idoms@, o);
+    proof {
+        assert(df@.dom() =~= self.vertices@.dom());
+        assert(has_idoms_shape(es, start_index, idoms@));
+        assert(idoms_shape(es, start_index, m, o));
+        assert(self.vertices@.contains_key(start_index));
+    }
+//@ loop 1
+    invariant
+        self.graph_wf(), self.vertices@.contains_key(start_index), es == self.edges@.dom(), m == idoms@,
+        idoms_shape(es, start_index, m, o),
+        seq_lists_map(it.seq(), self.vertices@),
+        df@.dom() == self.vertices@.dom(),
+        forall|v: usize, x: usize| #![trigger df@[v]@.contains(x)] df@.contains_key(v) && df@[v]@.contains(x) ==> self.vertices@.contains_key(x),
+//@ before 0 `let vertex_index: usize = *vertex.0;`
+    proof {
+        lemma_seq_lists_map(it.seq(), self.vertices@);
+        assert(self.vertices@.contains_pair(*vertex.0, *vertex.1));
+    }
+//@ loop 2
+    invariant
+        self.graph_wf(), self.vertices@.contains_key(start_index), self.vertices@.contains_key(vertex_index), es == self.edges@.dom(), m == idoms@,
+        idoms_shape(es, start_index, m, o),
+        seq_lists_set_ref(it2.seq(), self.predecessors@[vertex_index]@),
+        df@.dom() == self.vertices@.dom(),
+        forall|v: usize, x: usize| #![trigger df@[v]@.contains(x)] df@.contains_key(v) && df@[v]@.contains(x) ==> self.vertices@.contains_key(x),
+//@ before 0 `let mut runner = *predecessor; while runner != idom`
+    proof {
+        lemma_seq_lists_set_ref(it2.seq(), self.predecessors@[vertex_index]@);
+        assert(self.predecessors@[vertex_index]@.contains(*predecessor));
+        assert(self.edges@.contains_key((*predecessor, vertex_index)));
+    }
+//@ loop 3
+    invariant
+        self.graph_wf(), self.vertices@.contains_key(start_index), self.vertices@.contains_key(vertex_index), es == self.edges@.dom(), m == idoms@,
+        idoms_shape(es, start_index, m, o),
+        self.vertices@.contains_key(runner),
+        df@.dom() == self.vertices@.dom(),
+        forall|v: usize, x: usize| #![trigger df@[v]@.contains(x)] df@.contains_key(v) && df@[v]@.contains(x) ==> self.vertices@.contains_key(x),
+    decreases pos_of(o, runner),
+//@ before 0 `df.get_mut(&runner).unwrap().insert(vertex_index);`
+    let ghost dfa = df@;
+//@ after 0 `df.get_mut(&runner).unwrap().insert(vertex_index);`
+    proof {
+        assert forall|v: usize, x: usize| #![trigger df@[v]@.contains(x)] df@.contains_key(v) && df@[v]@.contains(x) implies self.vertices@.contains_key(x) by {
+            if v != runner {
+                assert(!vstd::std_specs::hash::contains_borrowed_key(Map::<usize, ()>::empty().insert(v, ()), &runner)) by {
+                    assert(!Map::<usize, ()>::empty().insert(v, ()).contains_key(runner));
+                }
+                assert(df@[v] == dfa[v]);
+            } else if x != vertex_index {
+                assert(dfa[runner]@.contains(x));
+            }
+        }
+    }
+//@ before 0 `runner = idoms[&runner]; } } } }`
+    proof {
+        assert(m.contains_key(runner));
+        self.lemma_reach_is_vertex(start_index, m[runner]);
+        assert(o.contains(m[runner]));
+        assert(0 <= pos_of(o, m[runner]) < pos_of(o, runner));
+    }
+//@ loop 4
+    invariant
+        self.graph_wf(), self.vertices@.contains_key(start_index), es == self.edges@.dom(), m == idoms@,
+        idoms_shape(es, start_index, m, o),
+        seq_lists_set_ref(it2.seq(), self.predecessors@[start_index]@),
+        df@.dom() == self.vertices@.dom(),
+        forall|v: usize, x: usize| #![trigger df@[v]@.contains(x)] df@.contains_key(v) && df@[v]@.contains(x) ==> self.vertices@.contains_key(x),
+//@ before 0 `let mut runner = *predecessor; loop`
+    proof {
+        lemma_seq_lists_set_ref(it2.seq(), self.predecessors@[start_index]@);
+        assert(self.predecessors@[start_index]@.contains(*predecessor));
+        assert(self.edges@.contains_key((*predecessor, start_index)));
+    }
+//@ loop 5
+    invariant
+        self.graph_wf(), self.vertices@.contains_key(start_index), es == self.edges@.dom(), m == idoms@,
+        idoms_shape(es, start_index, m, o),
+        self.vertices@.contains_key(runner),
+        df@.dom() == self.vertices@.dom(),
+        forall|v: usize, x: usize| #![trigger df@[v]@.contains(x)] df@.contains_key(v) && df@[v]@.contains(x) ==> self.vertices@.contains_key(x),
+    decreases pos_of(o, runner),
+//@ before 0 `df.get_mut(&runner).unwrap().insert(start_index);`
+    let ghost dfa = df@;
+//@ after 0 `df.get_mut(&runner).unwrap().insert(start_index);`
+    proof {
+        assert forall|v: usize, x: usize| #![trigger df@[v]@.contains(x)] df@.contains_key(v) && df@[v]@.contains(x) implies self.vertices@.contains_key(x) by {
+            if v != runner {
+                assert(!vstd::std_specs::hash::contains_borrowed_key(Map::<usize, ()>::empty().insert(v, ()), &runner)) by {
+                    assert(!Map::<usize, ()>::empty().insert(v, ()).contains_key(runner));
+                }
+                assert(df@[v] == dfa[v]);
+            } else if x != start_index {
+                assert(dfa[runner]@.contains(x));
+            }
+        }
+    }
+//@ before 1 `runner = idoms[&runner];`
+    proof {
+        assert(m.contains_key(runner));
+        self.lemma_reach_is_vertex(start_index, m[runner]);
+        assert(o.contains(m[runner]));
+        assert(0 <= pos_of(o, m[runner]) < pos_of(o, runner));
+    }
+//@ end
+
+
+//@ fn impl<V, E> Graph<V, E> :: fn compute_loops loops=4
+//@ rewrite 1 `for (tail, header) in self.compute_back_edges(head)? {` => `let back__ = self.compute_back_edges(head)?; for e__ in it: back__.iter() { let (tail, header) = *e__;` ## R-iter-copy: by-value iteration over a temporary HashSet of Copy pairs = binding it to a local and iterating by reference, copying each pair (Verus has no model of hash_set::IntoIter)
+//@ rewrite 1 `let nodes = loops.entry(header).or_default();` => `if !loops.contains_key(&header) { loops.insert(header, BTreeSet::new()); } let nodes = loops.get_mut(&header).unwrap();` ## R-entry-or-default: `map.entry(k).or_default()` is by definition: insert `Default::default()` (= `BTreeSet::new()`) if k is absent, then return a mutable reference to the value at k
+//@ rewrite 1 `for &predecessor in` => `for predecessor__r in it2:` ## R-ref-pattern: `for &x in ITER { BODY }` is `for x__r in ITER { let x = *x__r; BODY }` for Copy items (part 1 of 2)
+//@ rewrite 1 `{ if nodes.insert(predecessor)` => `{ let predecessor = *predecessor__r; if nodes.insert(predecessor)` ## R-ref-pattern: part 2 of 2
+//@ rewrite 1 `Ok(loops .iter() .map(|(&header, nodes)|` => `Ok({ let mut out__: Vec<Loop> = Vec::new(); for kv__ in it: loops.iter() { let (header, nodes) = (*kv__.0, kv__.1); out__.push(` ## R-map-collect: `ITER.map(|(&k, v)| F).collect::<Vec<_>>()` is by definition the loop pushing F for every entry (part 1 of 2; F stays the original tokens)
+//@ rewrite 1 `) .collect())` => `); } out__ })` ## R-map-collect: part 2 of 2
+//@ spec
+    requires self.graph_wf(),
+    ensures
+        /*@missing*/ !self.vertices@.contains_key(head) ==> (r matches Err(e) && e == Error::GraphVertexNotFound(head)),
+        /*@ok*/ self.vertices@.contains_key(head) ==> r is Ok,
+        /*@shape*/ r matches Ok(ls) ==> loops_shape(self.vertices@.dom(), ls@),
+//@ loop 0
+    invariant
+        self.graph_wf(), self.vertices@.contains_key(head),
+        seq_lists_set_ref(it.seq(), back__@),
+        forall|e: (usize, usize)| #![trigger back__@.contains(e)] back__@.contains(e) ==> self.edges@.contains_key(e),
+        loops_ok(self.vertices@.dom(), loops@),
+//@ before 0 `if !loops.contains_key(&header)`
+    proof {
+        lemma_seq_lists_set_ref(it.seq(), back__@);
+        assert(back__@.contains(*e__));
+        assert(*e__ == (tail, header));
+        assert(self.edges@.contains_key((tail, header)));
+        assert(self.vertices@.contains_key(tail) && self.vertices@.contains_key(header));
+    }
+//@ before 0 `let nodes = loops.get_mut(&header).unwrap();`
+    let ghost lma = loops@;
+    proof {
+        assert forall|h: usize| #![trigger lma[h]] lma.contains_key(h) && h != header implies lma[h]@.contains(h) && lma[h]@.subset_of(self.vertices@.dom()) by { }
+        assert(lma.contains_key(header) && lma[header]@.subset_of(self.vertices@.dom()));
+    }
+//@ before 0 `while let Some(node) = queue.pop()`
+    proof {
+        vstd::set_lib::lemma_len_subset(nodes@, self.vertices@.dom());
+    }
+//@ loop 1
+    invariant
+        self.graph_wf(),
+        nodes@.contains(header), nodes@.subset_of(self.vertices@.dom()),
+        forall|i: int| 0 <= i < queue@.len() ==> self.vertices@.contains_key(#[trigger] queue@[i]),
+        nodes@.len() <= self.vertices@.dom().len(),
+    decreases self.vertices@.dom().len() - nodes@.len() + queue@.len(),
+//@ before 0 `for predecessor__r in it2:`
+    let ghost q0 = queue@;
+    let ghost n0 = nodes@;
+    proof {
+        assert(self.vertices@.contains_key(node));
+    }
+//@ loop 2
+    invariant
+        self.graph_wf(), self.vertices@.contains_key(node),
+        seq_lists_set_ref(it2.seq(), self.predecessors@[node]@),
+        nodes@.contains(header), nodes@.subset_of(self.vertices@.dom()),
+        forall|i: int| 0 <= i < queue@.len() ==> self.vertices@.contains_key(#[trigger] queue@[i]),
+        nodes@.len() <= self.vertices@.dom().len(),
+        self.vertices@.dom().len() - nodes@.len() + queue@.len() == self.vertices@.dom().len() - n0.len() + q0.len(),
+//@ before 0 `if nodes.insert(predecessor)`
+    let ghost qb = queue@;
+    proof {
+        lemma_seq_lists_set_ref(it2.seq(), self.predecessors@[node]@);
+        assert(self.predecessors@[node]@.contains(predecessor));
+        assert(self.edges@.contains_key((predecessor, node)));
+        assert(self.vertices@.contains_key(predecessor));
+        vstd::set_lib::lemma_len_subset(nodes@.insert(predecessor), self.vertices@.dom());
+    }
+//@ after 0 `queue.push(predecessor); }`
+    proof {
+        assert forall|i: int| 0 <= i < queue@.len() implies self.vertices@.contains_key(#[trigger] queue@[i]) by {
+            if i < qb.len() { assert(queue@[i] == qb[i]); }
+        }
+    }
+//@ after 0 `queue.push(predecessor); } } }`
+    proof {
+        // the borrow of the loop's node set has ended
+        assert(loops_ok(self.vertices@.dom(), loops@)) by {
+            assert forall|h: usize| #![trigger loops@[h]] loops@.contains_key(h) implies loops@[h]@.contains(h) && loops@[h]@.subset_of(self.vertices@.dom()) by {
+                if h != header { assert(loops@[h] == lma[h]); }
+            }
+        }
+    }
+//@ loop 3
+    invariant
+        seq_lists_map(it.seq(), loops@),
+        loops_ok(self.vertices@.dom(), loops@),
+        out__@.len() == it.index@,
+        forall|i: int| 0 <= i < it.index@ ==> (#[trigger] out__@[i]).header == *it.seq()[i].0 && out__@[i].nodes@ == it.seq()[i].1@,
+        it.index@ == it.seq().len() ==> loops_shape(self.vertices@.dom(), out__@),
+//@ before 0 `out__.push(Loop::new(header, nodes.clone()));`
+    proof {
+        lemma_seq_lists_map(it.seq(), loops@);
+        assert(loops@.contains_pair(*kv__.0, *kv__.1));
+    }
+//@ after 0 `out__.push(Loop::new(header, nodes.clone()));`
+    proof {
+        assert forall|i: int| 0 <= i < out__@.len() implies (#[trigger] out__@[i]).nodes@.contains(out__@[i].header) && out__@[i].nodes@.subset_of(self.vertices@.dom()) by {
+            assert(loops@.contains_pair(*it.seq()[i].0, *it.seq()[i].1));
+        }
+        assert forall|i: int, j: int| 0 <= i < j < out__@.len() implies (#[trigger] out__@[i]).header != (#[trigger] out__@[j]).header by {
+            assert(*it.seq()[i].0 != *it.seq()[j].0);
+        }
+    }
+//@ end
+
+//@ fn impl<V, E> Graph<V, E> :: fn compute_loop_tree loops=3
+//@ rewrite 1 `for l in &loops {` => `for l in it: &loops {` ## R-ghost-iter-name: names the ghost iterator of the for loop; no executable change
+//@ rewrite 1 `for l1 in &loops {` => `for l1 in it: &loops {` ## R-ghost-iter-name: names the ghost iterator of the for loop; no executable change
+//@ rewrite 1 `for l2 in &loops {` => `for l2 in it2: &loops {` ## R-ghost-iter-name: names the ghost iterator of the for loop; no executable change
+//@ spec
+    requires self.graph_wf(),
+    ensures
+        /*@missing*/ !self.vertices@.contains_key(head) ==> (r matches Err(e) && e == Error::GraphVertexNotFound(head)),
+        /*@ok*/ self.vertices@.contains_key(head) ==> r is Ok,
+        /*@wf*/ r matches Ok(t) ==> t.graph_wf(),
+        /*@nesting*/ r matches Ok(t) ==> forall|e: (usize, usize)| #![trigger t.edges@.contains_key(e)] t.edges@.contains_key(e) ==> e.0 != e.1
+            && t.vertices@[e.0].nodes@.contains(e.1),
+//@ loop 0
+    invariant
+        loops_shape(self.vertices@.dom(), loops@),
+        it.seq().len() == loops@.len(), forall|i: int| 0 <= i < it.seq().len() ==> *#[trigger] it.seq()[i] == loops@[i],
+        tree.graph_wf(), tree.edges@.dom() =~= Set::<(usize, usize)>::empty(),
+        forall|k: usize| #![trigger tree.vertices@.contains_key(k)] tree.vertices@.contains_key(k) <==> (exists|j: int| 0 <= j < it.index@ && (#[trigger] loops@[j]).header == k),
+        forall|j: int| 0 <= j < it.index@ ==> tree.vertices@[(#[trigger] loops@[j]).header].nodes@ == loops@[j].nodes@,
+//@ before 0 `tree.insert_vertex(l.clone())?;`
+    let ghost tv0 = tree.vertices@;
+    proof {
+        assert(*l == loops@[it.index@]);
+        if tv0.contains_key(l.header) {
+            let j = choose|j: int| 0 <= j < it.index@ && (#[trigger] loops@[j]).header == l.header;
+            assert(loops@[j].header != loops@[it.index@].header);
+        }
+    }
+//@ after 0 `tree.insert_vertex(l.clone())?;`
+    proof {
+        assert forall|k: usize| #![trigger tree.vertices@.contains_key(k)] tree.vertices@.contains_key(k) <==> (exists|j: int| 0 <= j < it.index@ + 1 && (#[trigger] loops@[j]).header == k) by {
+            if tree.vertices@.contains_key(k) {
+                if k == l.header { assert(loops@[it.index@].header == k); }
+                else {
+                    assert(tv0.contains_key(k));
+                    let j = choose|j: int| 0 <= j < it.index@ && (#[trigger] loops@[j]).header == k;
+                    assert(loops@[j].header == k);
+                }
+            }
+            if exists|j: int| 0 <= j < it.index@ + 1 && (#[trigger] loops@[j]).header == k {
+                let j = choose|j: int| 0 <= j < it.index@ + 1 && (#[trigger] loops@[j]).header == k;
+                if j < it.index@ { assert(tv0.contains_key(k)); }
+            }
+        }
+        assert forall|j: int| 0 <= j < it.index@ + 1 implies tree.vertices@[(#[trigger] loops@[j]).header].nodes@ == loops@[j].nodes@ by {
+            if j < it.index@ {
+                assert(loops@[j].header != loops@[it.index@].header);
+                assert(tv0.contains_key(loops@[j].header));
+                assert(tree.vertices@[loops@[j].header] == tv0[loops@[j].header]);
+            }
+        }
+    }
+//@ loop 1
+    invariant
+        loops_shape(self.vertices@.dom(), loops@),
+        it.seq().len() == loops@.len(), forall|i: int| 0 <= i < it.seq().len() ==> *#[trigger] it.seq()[i] == loops@[i],
+        tree.graph_wf(),
+        forall|k: usize| #![trigger tree.vertices@.contains_key(k)] tree.vertices@.contains_key(k) <==> (exists|j: int| 0 <= j < loops@.len() && (#[trigger] loops@[j]).header == k),
+        forall|j: int| 0 <= j < loops@.len() ==> tree.vertices@[(#[trigger] loops@[j]).header].nodes@ == loops@[j].nodes@,
+        forall|e: (usize, usize)| #![trigger tree.edges@.contains_key(e)] tree.edges@.contains_key(e) ==> e.0 != e.1 && tree.vertices@[e.0].nodes@.contains(e.1)
+            && exists|a: int| 0 <= a < it.index@ && (#[trigger] loops@[a]).header == e.0,
+//@ loop 2
+    invariant
+        loops_shape(self.vertices@.dom(), loops@), 0 <= it.index@ < loops@.len(), *l1 == loops@[it.index@],
+        it2.seq().len() == loops@.len(), forall|i: int| 0 <= i < it2.seq().len() ==> *#[trigger] it2.seq()[i] == loops@[i],
+        tree.graph_wf(),
+        forall|k: usize| #![trigger tree.vertices@.contains_key(k)] tree.vertices@.contains_key(k) <==> (exists|j: int| 0 <= j < loops@.len() && (#[trigger] loops@[j]).header == k),
+        forall|j: int| 0 <= j < loops@.len() ==> tree.vertices@[(#[trigger] loops@[j]).header].nodes@ == loops@[j].nodes@,
+        forall|e: (usize, usize)| #![trigger tree.edges@.contains_key(e)] tree.edges@.contains_key(e) ==> e.0 != e.1 && tree.vertices@[e.0].nodes@.contains(e.1)
+            && ((exists|a: int| 0 <= a < it.index@ && (#[trigger] loops@[a]).header == e.0)
+                || (e.0 == l1.header && exists|b: int| 0 <= b < it2.index@ && (#[trigger] loops@[b]).header == e.1)),
+//@ before 0 `if l1.is_nesting(l2)`
+    let ghost te0 = tree.edges@.dom();
+//@ before 0 `tree.insert_edge(NullEdge::new(l1.header(), l2.header()))?;`
+    proof {
+        assert(*l2 == loops@[it2.index@]);
+        assert(loops@[it.index@].header == l1.header && loops@[it2.index@].header == l2.header);
+        assert(tree.vertices@.contains_key(l1.header) && tree.vertices@.contains_key(l2.header));
+        if tree.edges@.contains_key((l1.header, l2.header)) {
+            if exists|a: int| 0 <= a < it.index@ && (#[trigger] loops@[a]).header == l1.header {
+                let a = choose|a: int| 0 <= a < it.index@ && (#[trigger] loops@[a]).header == l1.header;
+                assert(loops@[a].header != loops@[it.index@].header);
+            } else {
+                let b = choose|b: int| 0 <= b < it2.index@ && (#[trigger] loops@[b]).header == l2.header;
+                assert(loops@[b].header != loops@[it2.index@].header);
+            }
+        }
+    }
+//@ after 0 `if l1.is_nesting(l2) { tree.insert_edge(NullEdge::new(l1.header(), l2.header()))?; }`
+    proof {
+        assert forall|e: (usize, usize)| #![trigger tree.edges@.contains_key(e)] tree.edges@.contains_key(e) implies e.0 != e.1 && tree.vertices@[e.0].nodes@.contains(e.1)
+            && ((exists|a: int| 0 <= a < it.index@ && (#[trigger] loops@[a]).header == e.0)
+                || (e.0 == l1.header && exists|b: int| 0 <= b < it2.index@ + 1 && (#[trigger] loops@[b]).header == e.1)) by {
+            if te0.contains(e) {
+                if !(exists|a: int| 0 <= a < it.index@ && (#[trigger] loops@[a]).header == e.0) {
+                    let b = choose|b: int| 0 <= b < it2.index@ && (#[trigger] loops@[b]).header == e.1;
+                    assert(loops@[b].header == e.1);
+                }
+            } else {
+                assert(e == (l1.header, l2.header));
+                assert(loops@[it2.index@].header == e.1);
+                assert(tree.vertices@[loops@[it.index@].header].nodes@ == loops@[it.index@].nodes@);
+            }
+        }
+    }
+//@ after 0 `if l1.is_nesting(l2) { tree.insert_edge(NullEdge::new(l1.header(), l2.header()))?; } }`
+    proof {
+        assert forall|e: (usize, usize)| #![trigger tree.edges@.contains_key(e)] tree.edges@.contains_key(e) implies
+            exists|a: int| 0 <= a < it.index@ + 1 && (#[trigger] loops@[a]).header == e.0 by {
+            if !(exists|a: int| 0 <= a < it.index@ && (#[trigger] loops@[a]).header == e.0) {
+                assert(loops@[it.index@].header == e.0);
+            } else {
+                let a = choose|a: int| 0 <= a < it.index@ && (#[trigger] loops@[a]).header == e.0;
+                assert(loops@[a].header == e.0);
+            }
+        }
     }
 //@ end
 
